@@ -617,6 +617,7 @@ impl MemcacheBinaryCodec {
 
 //@include prelude_io.rs
 //@include model_conn.rs
+//@include lemmas/pipeline.rs
 
 // ---- protocol/binary_connection.rs (R3) ---------------------------------------------------------------
 pub mod binary_connection {
